@@ -3,6 +3,7 @@ pub mod c02;
 pub mod c03;
 pub mod c04;
 pub mod c06;
+pub mod c09;
 pub mod c10;
 pub mod c11;
 pub mod c15;
@@ -18,6 +19,7 @@ pub fn by_id(id: &str) -> Option<Box<dyn Property>> {
         "C03" => Box::new(c03::C03),
         "C04" => Box::new(c04::C04),
         "C06" => Box::new(c06::C06),
+        "C09" => Box::new(c09::C09),
         "C10" => Box::new(c10::C10),
         "C11" => Box::new(c11::C11),
         "C15" => Box::new(c15::C15),
